@@ -142,6 +142,14 @@ CLAIMS = {
              'sets the read bit exactly for attributes not yet written. The phantom rule for fully loaded collections is checked under C12.',
         note='Per-reload contracts only: interleavings with concurrent committed writers (the schedules quantifier) are outside this technique and not claimed. A volatile attribute '
              'with an unflushed own write at reload time is excluded (not reachable through the API: queries flush first).'),
+    'C20': dict(
+        category='other',
+        text='BOUNDED stand-in (never counted as proved): on a real loaded object of a model with plain, optimistic=False, volatile, float and NULL-valued attributes, for every subset '
+             'of attributes read and every write-before / write-after variant, Entity._construct_optimistic_criteria_ yields exactly the attributes read before being written '
+             '(excluding volatile / non-optimistic ones) against the value that was read (IS NULL for None); Entity._save_updated_ adds the criteria iff the session is optimistic and '
+             'the object is not locked for update, raises OptimisticCheckError on zero affected rows, and runs the UPDATE inside the transaction.',
+        note='Schedules of concurrent sessions are outside the technique; atomic evaluation of the WHERE clause by the database is assumed. Bounds: one entity, 5 column attributes.',
+        technique='contracts on real functions, bounded exhaustive enumeration of read/write sets (contract-based family, bounded stand-in)'),
 }
 
 _NOT_BUILT = 'within reach of the technique per DESIGN.md, check not built yet'
